@@ -170,6 +170,17 @@ package jet
 //@   nopanic
 //@   ensures [let-declares-in-innermost-scope] has(state.scope.variables, name) && forallT(k, "string", k != name ==> state.scope.variables[k] == old(state.scope.variables[k]) && has(state.scope.variables, k) == old(has(state.scope.variables, k)))
 
+//@ func (*Runtime).SetOrLet
+//@   props C18
+//@   requires RtOK(state)
+//@   modifies mapsof VarMap, type scope.variables, ghost Held
+//@   nopanic
+//@   callsite (*Runtime).resolve count 1 {C18}
+//@   callsite (*Runtime).resolve 0 requires [setorlet-looks-the-name-up-like-an-identifier] {C18} name == caller.name && state == caller.state
+//@   callsite (*Runtime).Let 0 requires [let-exactly-when-no-variable-of-that-name-is-visible] {C18} lastret("(*Runtime).resolve", 1) != nil && name == caller.name && val == caller.val && state == caller.state
+//@   callsite (*Runtime).Set 0 requires [set-exactly-when-a-variable-of-that-name-is-visible] {C18} lastret("(*Runtime).resolve", 1) == nil && name == caller.name && val == caller.val && state == caller.state
+//@   check [setorlet-does-one-of-the-two] {C18} ncalls("(*Runtime).Let") + ncalls("(*Runtime).Set") == 1
+
 //@ func (*Runtime).LetGlobal
 //@   props C18 C12
 //@   requires RtOK(state)
@@ -690,6 +701,12 @@ package jet
 //@   callsite (*Runtime).executeList 1 requires [try-body-renders-into-a-fresh-buffer] {C13,C01} st.escapeeWriter.Writer == iface(caller.buf, "*bytes.Buffer") && fresh(caller.buf) && st.escapeeWriter == old(st.escapeeWriter)
 //@   callsite io.Copy 0 requires [buffer-copied-only-after-success] {C13} dst == old(st.escapeeWriter.Writer) && src == iface(caller.buf, "*bytes.Buffer") && !panicking()
 //@   callsite io.Copy count 1
+//@   callsite (*Runtime).executeList * requires [the-catch-body-runs-in-a-scope-of-its-own-holding-the-error] {C13,C07} list != caller.try.List && caller.try.Catch.Err != nil ==> st.scope.parent == old(st.scope) && has(st.scope.variables, caller.try.Catch.Err.Ident)
+//@   callsite (*Runtime).SetOrLet count 0 {C13,C07}
+//@   callsite (*Runtime).Set count 0 {C13,C07}
+//@   callsite (*Runtime).Let count 0 {C13,C07}
+//@   callsite (*Runtime).LetGlobal count 0 {C13,C07}
+//@   callsite (*Runtime).setValue count 0 {C13,C07}
 //@   anypanic
 //@   exsures [runtime-valid-on-panic] RtX(st)
 
@@ -774,6 +791,9 @@ package jet
 //@   modifies @Interp
 //@   loop 0 invariant [root-walk] RtOK(a.runtime) && t != nil && TplOK(t) && RootOf(t) == RootOf(lastret("(*Set).GetTemplate", 0)) && root == t.Root && a.runtime.scope.blocks == lastret("(*Set).GetTemplate", 0).processedBlocks && a.runtime.scope.parent == old(a.runtime.scope) && a.runtime.content == old(a.runtime.content) && a.runtime.context == old(a.runtime.context) && deferred(0) && deferred(1) && a.runtime.escapeeWriter.Writer == ioutil.Discard && w == old(a.runtime.escapeeWriter.Writer)
 //@   ensures [exec-balanced] SameS(a.runtime)
+//@   callsite (*Set).GetTemplate 0 requires [exec-looks-the-name-up-as-written-from-the-root] {C15,C09} templatePath == siteret("(reflect.Value).String", 0, 0) && s == a.runtime.escapeeWriter.set
+//@   callsite (*Set).GetTemplate count 1 {C15,C09}
+//@   callsite (*Arguments).Get 0 requires [exec-takes-the-name-from-its-first-argument] {C15,C09} argumentIndex == 0
 //@   callsite (*Runtime).executeList 0 requires [exec-discards-output] st.escapeeWriter.Writer == ioutil.Discard
 //@   callsite (*Runtime).executeList 0 requires [exec-runs-root-with-its-blocks] list == RootOf(lastret("(*Set).GetTemplate", 0)).Root && st.scope.blocks == lastret("(*Set).GetTemplate", 0).processedBlocks && st.scope.parent == old(a.runtime.scope)
 //@   callsite (*Runtime).executeList count 1
@@ -786,6 +806,9 @@ package jet
 //@   modifies @Interp
 //@   loop 0 invariant [root-walk] RtOK(a.runtime) && t != nil && TplOK(t) && RootOf(t) == RootOf(lastret("(*Set).GetTemplate", 0)) && root == t.Root && a.runtime.scope.blocks == lastret("(*Set).GetTemplate", 0).processedBlocks && a.runtime.scope.parent == old(a.runtime.scope) && a.runtime.content == old(a.runtime.content) && a.runtime.context == old(a.runtime.context) && deferred(0) && a.runtime.escapeeWriter.Writer == old(a.runtime.escapeeWriter.Writer)
 //@   ensures [includeIfExists-balanced] SameS(a.runtime)
+//@   callsite (*Set).GetTemplate 0 requires [includeIfExists-looks-the-name-up-as-written-from-the-root] {C15,C09} templatePath == siteret("(reflect.Value).String", 0, 0) && s == a.runtime.escapeeWriter.set
+//@   callsite (*Set).GetTemplate count 1 {C15,C09}
+//@   callsite (*Arguments).Get 0 requires [includeIfExists-takes-the-name-from-its-first-argument] {C15,C09} argumentIndex == 0
 //@   check [includeIfExists-missing-renders-nothing] ncalls("(*Runtime).executeList") == 0 ==> result == hiddenFalse
 //@   check [includeIfExists-existing-renders-once] ncalls("(*Runtime).executeList") == 1 ==> result == hiddenTrue
 //@   callsite (*Runtime).executeList 0 requires [includeIfExists-runs-root-with-its-blocks] list == RootOf(lastret("(*Set).GetTemplate", 0)).Root && st.scope.blocks == lastret("(*Set).GetTemplate", 0).processedBlocks && st.scope.parent == old(a.runtime.scope) && st.escapeeWriter.Writer == old(a.runtime.escapeeWriter.Writer)
@@ -851,6 +874,7 @@ package jet
 //@ axiom forallT(t, "reflect.Type", forallT(k, "int", ParamT(t, k) == ite(TVariadic(t) && k >= TNumIn(t) - 1, TElem(TIn(t, TNumIn(t) - 1)), TIn(t, k))))
 //@ axiom forallT(v, "reflect.Value", forallT(t, "reflect.Type", RvTypeOf(RvConv(v, t)) == t && TAssign(t, t)))
 //@ axiom forallT(i, "interface{}", istype(i, "int64") ==> RvValid(RvOf(i)) && RvKind(RvOf(i)) == 6 && RvInt(RvOf(i)) == as(i, "int64"))
+//@ axiom forallT(i, "interface{}", istype(i, "int") ==> RvValid(RvOf(i)) && RvKind(RvOf(i)) == 2 && RvInt(RvOf(i)) == as(i, "int"))
 //@ axiom forallT(i, "interface{}", istype(i, "float64") ==> RvValid(RvOf(i)) && RvKind(RvOf(i)) == 14 && RvFloat(RvOf(i)) == as(i, "float64"))
 //@ axiom forallT(i, "interface{}", istype(i, "bool") ==> RvValid(RvOf(i)) && RvKind(RvOf(i)) == 1 && RvBool(RvOf(i)) == as(i, "bool"))
 //@ immutable {C14,C12} global stringType
@@ -893,6 +917,18 @@ package jet
 //@   modifies @Interp
 //@   anypanic
 //@   callsite (*Arguments).Get 0 requires argumentIndex == 0
+//@   check [len-is-the-go-length-of-strings-and-collections] {C14} RvKind(ite(RvKind(siteret("(*Arguments).Get", 0, 0)) == 22 || RvKind(siteret("(*Arguments).Get", 0, 0)) == 20, RvElem(siteret("(*Arguments).Get", 0, 0)), siteret("(*Arguments).Get", 0, 0))) == 17 || RvKind(ite(RvKind(siteret("(*Arguments).Get", 0, 0)) == 22 || RvKind(siteret("(*Arguments).Get", 0, 0)) == 20, RvElem(siteret("(*Arguments).Get", 0, 0)), siteret("(*Arguments).Get", 0, 0))) == 18 || RvKind(ite(RvKind(siteret("(*Arguments).Get", 0, 0)) == 22 || RvKind(siteret("(*Arguments).Get", 0, 0)) == 20, RvElem(siteret("(*Arguments).Get", 0, 0)), siteret("(*Arguments).Get", 0, 0))) == 21 || RvKind(ite(RvKind(siteret("(*Arguments).Get", 0, 0)) == 22 || RvKind(siteret("(*Arguments).Get", 0, 0)) == 20, RvElem(siteret("(*Arguments).Get", 0, 0)), siteret("(*Arguments).Get", 0, 0))) == 23 || RvKind(ite(RvKind(siteret("(*Arguments).Get", 0, 0)) == 22 || RvKind(siteret("(*Arguments).Get", 0, 0)) == 20, RvElem(siteret("(*Arguments).Get", 0, 0)), siteret("(*Arguments).Get", 0, 0))) == 24 ==> RvKind(result) == 2 && RvInt(result) == RvLen(ite(RvKind(siteret("(*Arguments).Get", 0, 0)) == 22 || RvKind(siteret("(*Arguments).Get", 0, 0)) == 20, RvElem(siteret("(*Arguments).Get", 0, 0)), siteret("(*Arguments).Get", 0, 0)))
+//@   check [len-of-a-struct-is-its-number-of-fields] {C14} RvKind(ite(RvKind(siteret("(*Arguments).Get", 0, 0)) == 22 || RvKind(siteret("(*Arguments).Get", 0, 0)) == 20, RvElem(siteret("(*Arguments).Get", 0, 0)), siteret("(*Arguments).Get", 0, 0))) == 25 ==> RvKind(result) == 2 && RvInt(result) == RvNumField(ite(RvKind(siteret("(*Arguments).Get", 0, 0)) == 22 || RvKind(siteret("(*Arguments).Get", 0, 0)) == 20, RvElem(siteret("(*Arguments).Get", 0, 0)), siteret("(*Arguments).Get", 0, 0)))
+//@ func (*Arguments).ParseInto
+//@   props C18
+//@   requires a != nil && RtOK(a.runtime) && WFArgs(a.args)
+//@   requires [the-caller-passes-non-nil-pointers] forall(k, 0, len(ptrs), refof(ptrs[k]) != nil)
+//@   modifies *
+//@   anypanic
+//@   loop 0 invariant 0 <= i && RtOK(a.runtime) && WFArgs(a.args) && len(ptrs) >= len(a.args.Exprs) + ite(Implicit(a), 1, 0)
+//@   callsite (*Arguments).Get 0 requires [the-i-th-pointer-receives-the-i-th-argument] {C18} argumentIndex == caller.i && caller.i < len(a.args.Exprs) + ite(Implicit(a), 1, 0) && a == caller.a
+//@   callsite (*Arguments).Get count 1 {C18}
+//@   check [too-few-pointers-is-an-error] {C18} len(ptrs) < len(a.args.Exprs) + ite(Implicit(a), 1, 0) ==> result != nil
 //@ func (*Arguments).RequireNumOfArguments
 //@   props C14
 //@   requires a != nil
